@@ -17,7 +17,7 @@ RULE = (
 )
 ASSUMPTIONS = c01.ASSUMPTIONS
 CASE_TIMEOUT = 60
-CORPUS = c01.CORPUS[:4]
+CORPUS = c01.CORPUS[:5]
 
 
 def generate(rng, tier):
